@@ -8,6 +8,7 @@ from vlib import Case, Rng
 
 ID = "C16"
 PROPS_MODULE = "AmqModel.Props.C16"
+EXTRA_PROPS_MODULES = ["AmqModel.Props.Pass"]      # the registrations at the end of every pass of run_io_loop (Model/Pass.lean): no lost wake-up
 NONTRIVIAL_RULE = "distinct (frame sequence shape, ending) pairs"
 MODEL_SCOPE = "src/io_loop/handshake_state.rs, connection_options.rs make_start_ok / make_tune_ok / make_open, auth.rs, io_loop/mod.rs run_amqp_handshake + is_handshake_done + the connection-timeout branch of run_io_loop, IoLoop::start / wait_for_amqp_handshake; run end to end: the real Connection::insecure_open_stream with its real I/O thread and poll over an in-process transport, against a scripted server"
 ASSUMPTIONS = ["A3/A6: the mock transport signals readiness like a socket (user-space mio registration)",
@@ -331,7 +332,11 @@ def slow_monitor(case, il, sl):
 
 
 def suites(tier, seed):
-    return [Suite("slow-handshake-e2e", "hbe2e", lambda: [Case("s%d" % i, [o], {"keep_prefix": 0}) for i, o in enumerate(
+    import passlog
+    return [Suite("first-writes-e2e", "hswrite", lambda: passlog.hswrite_cases(tier), monitor=passlog.hswrite_monitor, nontrivial=lambda c, il: True, compare=False, shards=4, shrink=False, timeout=200,
+                  rule="the server answers everything it gets; the transport takes only the first 0..12 / 20 / ... / 300 bytes of the client's handshake (would-block inside the protocol header, StartOk, TuneOk, Open) and becomes willing again 250 ms later: the handshake completes (it never hangs while the server responds)"),
+            passlog.suite("loop-passes-first-writes", "hswrite", lambda: passlog.hswrite_cases(tier), "the first-writes-e2e cases"),
+            Suite("slow-handshake-e2e", "hbe2e", lambda: [Case("s%d" % i, [o], {"keep_prefix": 0}) for i, o in enumerate(
                       ["run 0 0 silent 200 timeout=1500 step-delay=700", "run 0 0 silent 200 timeout=400 step-delay=800", "run 60 60 silent 200 timeout=1000 step-delay=500"] + ([] if tier == "quick" else ["run 0 0 silent 200 timeout=2000 step-delay=900", "run 1 1 silent 200 timeout=600 step-delay=300"]))],
                   monitor=slow_monitor, nontrivial=lambda c, il: True, compare=False, shards=6, timeout=300,
                   rule="real connection over the mock transport; the broker waits before each of Start, Tune and OpenOk: 3 x 700 ms with a 1500 ms timeout -> connection (the timeout is about silence, not about the whole handshake); 800 ms per step with a 400 ms timeout -> ConnectionTimeout"),
